@@ -1,6 +1,6 @@
 (* Correspondence for C06: a case is either one `f1 op f2` or one `f.mask(...)`, with the
    library's observed result. *)
-From PNC Require Export Base.Util Model.Arith.
+From PNC Require Export Base.Util Model.Arith Model.EvalExpr.
 Require Export QArith.
 Local Close Scope Q_scope.
 Local Open Scope nat_scope.
@@ -11,7 +11,8 @@ Inductive obs := ORaise (kind : nat) (* 1 = IndexError, 0 = other *) | OVars (va
 
 Inductive case_t :=
 | CBin (cls : nat) (coords : list nat) (vs : list bvar) (o : obs)
-| CMask (coords : list nat) (with_coords : bool) (w : option wherearg) (p : preds) (vs : list mvar) (o : obs).
+| CMask (coords : list nat) (with_coords : bool) (w : option wherearg) (p : preds) (vs : list mvar) (o : obs)
+| CEval (f : efile) (copyall : bool) (ss : list stmt) (o : option (list (nat * list ocell))) (* None = raised *).
 
 Definition rv_eqb (a b : rv) : bool :=
   match a, b with
@@ -34,6 +35,14 @@ Definition checkF (c : case_t) : bool :=
   | CBin cls coords vs (OVars os) => vars_eqb (impl_binop cls coords vs) os
   | CBin _ _ _ (ORaise _) => false
   | CMask coords wc w p vs o => mres_matches (impl_mask coords wc w p vs) o
+  | CEval f ca ss o =>
+      match impl_eval f ca ss, o with
+      | EOk r, Some os =>
+          list_eqb (fun p q => (fst p =? fst q) && list_eqb ocell_close (snd p) (snd q))
+                   (map (fun p => (fst p, map visible (e_cells (snd p)))) r) os
+      | ERaise, None => true
+      | _, _ => false
+      end
   end.
 
 Definition checkS (c : case_t) : bool :=
@@ -41,6 +50,11 @@ Definition checkS (c : case_t) : bool :=
   | CBin cls coords vs (OVars os) => vars_eqb (spec_binop cls coords vs) os
   | CBin _ _ _ (ORaise _) => false
   | CMask coords wc w p vs o => mres_matches (spec_mask coords wc w p vs) o
+  | CEval f ca ss o =>
+      match o with
+      | Some os => spec_eval_ok f ca ss os
+      | None => match exec (file_env f) ss with None => true | Some _ => false end
+      end
   end.
 
 (* no known-defect region is left after the repairs *)
